@@ -57,6 +57,7 @@ type ctxOut struct {
 	panic interface{}
 	err   error
 	ok    bool
+	huge  uint // SetPrec beyond MaxPrec: what the context reported
 }
 
 func (m *ctxMachine) do(s CtxStep) (out ctxOut) {
@@ -128,6 +129,15 @@ func (m *ctxMachine) do(s CtxStep) (out ctxOut) {
 	case "err":
 		out.err = c.Err()
 	case "setprec":
+		if s.P > model.MaxPrec {
+			// beyond MaxPrec: documented to saturate. Looked at and set back at once (an operation at four
+			// billion digits is not something to run)
+			old := c.Prec()
+			c.SetPrec(s.P)
+			out.huge = c.Prec()
+			c.SetPrec(old)
+			return
+		}
 		c.SetPrec(s.P)
 	case "setmode":
 		c.SetMode(decimal.RoundingMode(s.M))
@@ -267,6 +277,9 @@ func genC19(t *rapid.T) C19Case {
 		case k == 14:
 			s.Op = "setprec"
 			s.P = uint(rapid.IntRange(0, ctxPrecLimit()).Draw(t, "p"))
+			if rapid.IntRange(0, 9).Draw(t, "phuge") == 0 {
+				s.P = uint(rapid.SampledFrom([]uint64{1 << 32, 1<<32 + 3, 1<<32 + 34, 1 << 33, 1<<63 + 5, 1<<64 - 1, 1<<32 - 1 + 1}).Draw(t, "phugev"))
+			}
 		case k == 15:
 			s.Op = "setmode"
 			s.M = h.GenMode(t, "m")
@@ -465,6 +478,11 @@ func checkC19(c C19Case, o *h.Obs) *h.Fail {
 				}
 			} else if out.err != nil {
 				return h.Failf("err", "%s: Err() = %v (%T) but no NaN was produced", where, out.err, out.err)
+			}
+		case s.Op == "setprec" && s.P > model.MaxPrec:
+			o.Label("setprec-beyond-MaxPrec")
+			if out.huge != model.MaxPrec {
+				return h.Failf("ctx-attrs", "%s: SetPrec(%d) gave the context precision %d, documented MaxPrec", where, s.P, out.huge)
 			}
 		case s.Op == "setprec":
 			prec = s.P
